@@ -148,7 +148,7 @@ func main() {
 		return "decode", "decoding the reads " + strings.Join(cs, " | ") + " (collectEventsFromInput does not return)", map[string]interface{}{"chunks": cs}
 	})
 	w.R.Rule = "for each stateless registered charset (+US-ASCII, UTF-8): every printable code point that round-trips through the x/text codec, as a one-character text, fed in one read, byte-wise and at every two-chunk split; all texts of length <=3 over 8 representatives per charset (each encoded length, first/last) under every split, bare, inside paste brackets, and with focus reports between characters, on a terminal with (xterm-256color) and without (vt220) paste support. distinct_nontrivial = distinct (charset, text) cases containing at least one multi-byte character"
-	w.R.Assumptions = []string{"the x/text (and gdamore/encoding) codecs define which byte strings are valid text of a charset", "U+FFFD is checked separately from the sweep (the parser cannot tell it from a decoding error; reported as a known finding)", "splits are exhaustive for two chunks plus byte-wise; by the splitting argument in DESIGN.md 1.4 (state compared in C02) this covers every partition"}
+	w.R.Assumptions = []string{"the x/text (and gdamore/encoding) codecs define which byte strings are valid text of a charset", "U+FFFD is checked separately from the sweep (a decoder substitutes it for invalid input, so its delivery needs the comparison with its own encoding; repaired in the sixth round)", "splits are exhaustive for two chunks plus byte-wise; by the splitting argument in DESIGN.md 1.4 (state compared in C02) this covers every partition"}
 
 	if *hc.Replay != "" {
 		var rp struct {
